@@ -110,23 +110,56 @@ def c15(ctx):
         want = set(string_fields(F, adt))
         bodies = F.with_closures(fn)
         # (iii) fast path guard
-        alls = [(b, bi, t) for b in bodies for bi, t in b.calls() if callee_def(t) == "std::iter::Iterator::all"]
+        IS_LOWER = ("std::char::methods::<impl char>::is_lowercase", "core::char::methods::<impl char>::is_lowercase")
+
+        def pred_closure(b_, t_):
+            l_ = op_local(t_["args"][1]) if len(t_["args"]) > 1 else None
+            cl_ = b_.local_ty(l_).peel_refs() if l_ is not None else None
+            return F.fn(cl_.d.get("closure", "")) if cl_ is not None and cl_.kind() == "closure" else None
+
+        def only_lowercase(cf_, depth=0):
+            """the predicate tests char::is_lowercase on every character: directly, or through a nested all() over the characters"""
+            if cf_ is None or depth > 3:
+                return False
+            cs = [(bb, tt) for bb, tt in cf_.calls()]
+            defs_ = [callee_def(tt) for bb, tt in cs]
+            if len(defs_) == 1 and defs_[0] in IS_LOWER:
+                return True
+            inner = [(bb, tt) for bb, tt in cs if callee_def(tt) == "std::iter::Iterator::all"]
+            rest = [d_ for d_ in defs_ if d_ != "std::iter::Iterator::all" and (d_ or "").rsplit("::", 1)[-1] not in ("chars", "iter", "into_iter", "deref", "as_str", "as_ref", "flatten", "map", "flat_map", "borrow")]
+            return len(inner) == 1 and not rest and only_lowercase(pred_closure(cf_, inner[0][1]), depth + 1)
+        # the all() tests that are not themselves inside a predicate of another all()
+        inner_preds = set()
+        for b_ in bodies:
+            for bi_, t_ in b_.calls():
+                if callee_def(t_) == "std::iter::Iterator::all":
+                    pc = pred_closure(b_, t_)
+                    if pc is not None:
+                        inner_preds |= {x.path for x in F.with_closures(pc)}
+        alls = [(b, bi, t) for b in bodies for bi, t in b.calls() if callee_def(t) == "std::iter::Iterator::all" and b.path not in inner_preds]
         guard_ok, why = False, "no Iterator::all test found"
         if len(alls) == 1:
             b, bi, t = alls[0]
-            cl = b.local_ty(op_local(t["args"][1])).peel_refs() if op_local(t["args"][1]) is not None else None
-            cf = F.fn(cl.d.get("closure", "")) if cl is not None and cl.kind() == "closure" else None
-            pred = [callee_def(tt) for bb, tt in cf.calls()] if cf is not None else []
+            cf = pred_closure(b, t)
             flds = set()
             for d, p in kind_deep(b, t["args"][0]):
                 if d[0] == "param" and p:
                     flds.add(p[0])
             # fields may be read inside adaptor closures (flatten over a Vec): count reads in the whole function before the guard
-            if pred != ["std::char::methods::<impl char>::is_lowercase"] and pred != ["core::char::methods::<impl char>::is_lowercase"]:
-                why = "the already-folded test uses %s instead of char::is_lowercase on every character" % (pred or "no predicate")
+            if not only_lowercase(cf):
+                why = "the already-folded test uses %s instead of char::is_lowercase on every character" % ([callee_def(tt) for bb, tt in cf.calls()] if cf is not None else "no predicate")
             else:
+                # the unchanged name (Lowercased::Ref) is built only where the test held: under bool::then(test), or on its true edge
                 thens = [(b2, bi2, t2) for b2 in bodies for bi2, t2 in b2.calls() if is_callee(t2, "core::bool::<impl bool>::then")]
-                if len(thens) != 1 or not any(d[0] == "call" and d[1] == bi for d, _ in origins(thens[0][0], thens[0][2]["args"][0])):
+                under_then = len(thens) == 1 and any(d[0] == "call" and d[1] == bi for d, _ in origins(thens[0][0], thens[0][2]["args"][0]))
+                on_edge = False
+                if not under_then:
+                    from ..guards import _bool_edges, _dominated_by_edge
+                    e = _bool_edges(b, bi)
+                    refs = [bi2 for bi2, si2, s2 in b.assigns() if isinstance(s2["rv"].get("agg"), dict) and s2["rv"]["agg"].get("variant") == "Ref" and (s2["rv"]["agg"].get("adt") or "").endswith("Lowercased")]
+                    others = [b2 for b2 in bodies if b2 is not b and any(isinstance(s2["rv"].get("agg"), dict) and s2["rv"]["agg"].get("variant") == "Ref" and (s2["rv"]["agg"].get("adt") or "").endswith("Lowercased") for _, _, s2 in b2.assigns())]
+                    on_edge = bool(e) and bool(refs) and not others and all(r == e[2] or _dominated_by_edge(b, r, e[0], e[2]) for r in refs)
+                if not under_then and not on_edge:
                     why = "the unchanged name is not returned under bool::then(all lower-case)"
                 elif not want <= flds and not (len(want) == 1 and flds):
                     why = "the already-folded test looks at fields %s of %s, not at all of %s" % (sorted(flds), short, sorted(want))
@@ -177,7 +210,7 @@ def c15(ctx):
         if ok:
             bi, t = gets[0]
             srcs = kind_deep(mk, t["args"][1])
-            low = [d[1] for d, _ in srcs if d[0] == "call" and is_callee(mk.term(d[1]), "core::str::<impl str>::to_lowercase", "str::<impl str>::to_lowercase", "alloc::str::<impl str>::to_lowercase", "std::str::<impl str>::to_lowercase")]
+            low = [d[1] for d, _ in srcs if d[0] == "call" and (is_callee(mk.term(d[1]), *STR_LOWER) or _is_fold_helper(F, mk, mk.term(d[1])))]
             if not low:
                 ok, why = False, "the key of the keyword lookup is not str::to_lowercase(word)"
             elif not any(mk.dominates(l, bi) for l in low):
@@ -290,6 +323,22 @@ def case_and_compare(ctx):
                    f.loc(), how=why_ok)
     rep.floor("C15.R5", m, 6, "(caller, comparison) pairs")
 
+
+
+STR_LOWER = ("core::str::<impl str>::to_lowercase", "str::<impl str>::to_lowercase", "alloc::str::<impl str>::to_lowercase", "std::str::<impl str>::to_lowercase")
+
+
+def _is_fold_helper(F, caller, t):
+    """a private function of the same file that returns str::to_lowercase of its (only) argument and does nothing else"""
+    h = F.fn(callee_def(t) or "")
+    if h is None or not h.mir or h.file != caller.file or h.kind == "closure" or t["callee"].get("trait") is not None or h.argc != 1:
+        return False
+    cs = [(bi, tt) for bi, tt in h.calls() if (tt["callee"].get("name") or "") not in ("deref", "as_ref", "as_str", "borrow")]
+    if len(cs) != 1 or not is_callee(cs[0][1], *STR_LOWER):
+        return False
+    if not any(d[0] == "param" and d[1] == 1 for d, _ in kind_deep(h, cs[0][1]["args"][0])):
+        return False
+    return common.flows_into(h, cs[0][0], {"copy": {"l": 0, "p": []}}) and not common.path_to_return_avoiding(h, [cs[0][0]], through_errors=True)
 
 
 def _field_reaches_fold(F, body, adt, field, depth=0):
